@@ -12,6 +12,9 @@ import TlxVerif.Proofs.C19Codec
 import TlxVerif.Proofs.C19Split
 import TlxVerif.Proofs.C19Quoted
 import TlxVerif.Proofs.C19Helpers
+import TlxVerif.Proofs.C19Trim
+import TlxVerif.Proofs.C19Contains
+import TlxVerif.Proofs.C19Replace
 namespace TlxVerif.C19
 open TlxVerif.C18 (Bytes npos)
 open TlxVerif.C18
@@ -276,5 +279,103 @@ theorem pad_length (s : Bytes) (len : Nat) (c : UInt8) : (pad s len c).length = 
   split
   · simp [List.length_take]; omega
   · simp; omega
+
+/-! ## split with a limit -/
+
+/-- `split(sep, str, limit)` (non-empty separator) is the recursive definition: cut at the
+leftmost occurrence, at most `limit` parts, the last part keeps the rest -/
+theorem split_eq_spec (sep s : Bytes) (limit : Nat) (hsep : sep ≠ []) :
+    splitStr sep s limit = Spec.split sep limit s :=
+  splitStr_eq_spec sep s limit hsep
+
+/-- the `char` overload is the same function for a one-byte separator -/
+theorem splitChar_eq_spec (c : UInt8) (s : Bytes) (limit : Nat) :
+    splitChar c s limit = Spec.split [c] limit s := by
+  rw [splitChar_eq_splitStr, splitStr_eq_spec _ _ _ (by simp)]
+
+theorem splitEmptyLoop_length (limit : Nat) : ∀ (s : Bytes) (count : Nat), count < limit →
+    (splitEmptyLoop limit s count).length ≤ limit - count
+  | [], _, _ => by simp [splitEmptyLoop]
+  | c :: t, count, h => by
+    simp only [splitEmptyLoop]
+    split
+    · simp; omega
+    · have := splitEmptyLoop_length limit t (count + 1) (by omega)
+      simp only [List.length_cons]; omega
+
+/-- never more than `limit` parts — for every separator, the empty one included -/
+theorem split_length_le (sep s : Bytes) (limit : Nat) : (splitStr sep s limit).length ≤ limit := by
+  by_cases hsep : sep = []
+  · subst hsep
+    unfold splitStr
+    by_cases h0 : limit = 0
+    · simp [h0]
+    · simp only [h0, if_false, List.isEmpty_nil, if_true]
+      have := splitEmptyLoop_length limit s 0 (by omega)
+      omega
+  · rw [splitStr_eq_spec sep s limit hsep]
+    exact spec_split_length sep limit s
+
+/-- `join(sep, split(sep, str, limit)) = str` for a non-empty separator and `limit ≥ 1` -/
+theorem join_split (sep s : Bytes) (limit : Nat) (hsep : sep ≠ []) (hl : 0 < limit) :
+    join sep (splitStr sep s limit) = s := by
+  rw [splitStr_eq_spec sep s limit hsep]
+  exact join_spec_split sep limit s hl
+
+/-- the `min_fields` overloads only append empty fields -/
+theorem split_min_fields (v : List Bytes) (m : Nat) :
+    padFields v m = v ++ List.replicate (m - v.length) [] ∧ (padFields v m).length = max v.length m := by
+  unfold padFields
+  by_cases h : v.length < m
+  · simp [h]; omega
+  · have : m - v.length = 0 := by omega
+    simp [h, this]; omega
+
+example : Spec.split [58] 2 [97, 58, 98, 58, 99] = [[97], [98, 58, 99]] ∧ Spec.split [58] 5 [97, 58] = [[97], []] := by
+  decide
+
+/-! ## replace_first / replace_all (non-empty needle) -/
+
+theorem replace_first_eq (s needle instead : Bytes) (hn : needle ≠ []) :
+    replaceFirst s needle instead = Spec.replaceFirst needle instead s :=
+  replaceFirst_eq s needle instead hn
+
+theorem replace_all_eq (s needle instead : Bytes) (hn : needle ≠ []) :
+    replaceAll s needle instead = Spec.replaceAll needle instead s :=
+  replaceAll_eq s needle instead hn
+
+example : replaceAll [97, 97, 97, 97, 97] [97, 97] [98] = [98, 98, 97] ∧ replaceFirst [97, 98, 97, 98] [98] [] = [97, 97, 98] := by
+  decide
+
+/-! ## trim family: all nine shapes (the `char` and default-drop overloads are the same code with
+a one-element / the `" \r\n\t"` drop set); sizes below 2^64 because of the `npos` sentinels -/
+
+theorem trim_left_string_eq (s drop : Bytes) (hsz : s.length < 18446744073709551616) :
+    trimLeftString s drop = Spec.trimLeft drop s := trimLeftString_eq s drop hsz
+theorem trim_left_viewptr_eq (s drop : Bytes) (hsz : s.length < 18446744073709551616) :
+    trimLeftViewPtr s drop = Spec.trimLeft drop s := trimLeftViewPtr_eq s drop hsz
+theorem trim_left_view_eq (s drop : Bytes) (hsz : s.length < 18446744073709551616) :
+    trimLeftView s drop = Spec.trimLeft drop s := trimLeftView_eq s drop hsz
+theorem trim_right_string_eq (s drop : Bytes) (hsz : s.length < 18446744073709551616) :
+    trimRightString s drop = Spec.trimRight drop s := trimRightString_eq s drop hsz
+theorem trim_right_viewptr_eq (s drop : Bytes) (hsz : s.length < 18446744073709551616) :
+    trimRightViewPtr s drop = Spec.trimRight drop s := trimRightViewPtr_eq s drop hsz
+theorem trim_right_view_eq (s drop : Bytes) (hsz : s.length < 18446744073709551616) :
+    trimRightView s drop = Spec.trimRight drop s := trimRightView_eq s drop hsz
+theorem trim_string_eq (s drop : Bytes) (hsz : s.length < 18446744073709551616) :
+    trimString s drop = Spec.trim drop s := trimString_eq s drop hsz
+theorem trim_viewptr_eq (s drop : Bytes) (hsz : s.length < 18446744073709551616) :
+    trimViewPtr s drop = Spec.trim drop s := trimViewPtr_eq s drop hsz
+theorem trim_view_eq (s drop : Bytes) (hsz : s.length < 18446744073709551616) :
+    trimView s drop = Spec.trim drop s := trimView_eq s drop hsz
+
+example : trimString [32, 9, 97, 32, 98, 10] [32, 13, 10, 9] = [97, 32, 98] ∧
+    Spec.trim [32, 13, 10, 9] [32, 9, 97, 32, 98, 10] = [97, 32, 98] := by decide
+
+/-! ## contains -/
+
+/-- `contains(str, pattern)` holds exactly when the pattern is an infix of the string -/
+theorem contains_eq (str p : Bytes) (hsz : str.length < npos) : contains str p = true ↔ p <:+: str :=
+  contains_iff_infix str p hsz
 
 end TlxVerif.C19
